@@ -493,3 +493,28 @@ Proof.
   - intros a. lia.
   - intros a a' b b' H1 H2. apply Z.ltb_ge in H1, H2. apply Z.ltb_ge. lia.
 Qed.
+
+(* closed instance over the canonical rationals *)
+Theorem l1d_losses_scalar_Qc :
+  forall (Lf : list (option Qc) -> list (option (L1D.Y Qc)) -> Qc) (P : L1D.params Qc)
+         (inf neg_inf : Qc) (round12 : Qc -> Qc),
+  L1D.factor P = Q2Qc 1 ->
+  forall (pending : list Qc) (l1 l2 : list (Qc * L1D.Y Qc)),
+  NoDup (map fst l1) ->
+  Forall (good_result Qc OrderL1D.Qc_ltb OrderL1D.Qc_eqb inf neg_inf P) l1 ->
+  Permutation l1 l2 ->
+  let tp := @L1D.tell_pending Qc Qcminus Qcmult Qcdiv OrderL1D.Qc_ltb OrderL1D.Qc_eqb (Q2Qc 0) (Q2Qc 1) inf Lf P in
+  let t := OrderL1D.tell1 Qc Qcminus Qcmult Qcdiv OrderL1D.Qc_ltb OrderL1D.Qc_eqb (Q2Qc 0) (Q2Qc 1) inf neg_inf
+             (fun _ => false) (fun _ => false) round12 Lf P in
+  let s0 := fold_left tp pending (@L1D.init Qc Qcminus (Q2Qc 0) inf neg_inf P) in
+  let loss := @L1D.loss Qc Qcminus Qcdiv OrderL1D.Qc_ltb OrderL1D.Qc_eqb inf (fun _ => false) (fun _ => false) round12 P in
+  L1D.los (fold_left t l1 s0) = L1D.los (fold_left t l2 s0) /\
+  loss (fold_left t l1 s0) true = loss (fold_left t l2 s0) true.
+Proof.
+  intros Lf P inf neg_inf round12 HF pending l1 l2 Hnd Hg HP.
+  assert (F1 : forall a, Qcmult (L1D.factor P) a = a) by (intros a; rewrite HF; ring).
+  destruct (l1d_losses_scalar Qc Qcplus Qcminus Qcmult Qcdiv OrderL1D.Qc_ltb OrderL1D.Qc_eqb (Q2Qc 0) (Q2Qc 1)
+              inf neg_inf (fun _ => false) (fun _ => false) round12 Lf P
+              OrderL1D.OrdLaws_Qc F1 ScaleLaws_Qc pending l1 l2 Hnd Hg HP) as [H1 [H2 _]].
+  split; assumption.
+Qed.
